@@ -21,14 +21,16 @@ Inductive pseg := PLit (s : seg) | PWild.
 Definition pattern := list pseg.
 
 Inductive kind := KInt | KU32 | KStr | KBool | KList (* []string *)
-                | KEntry (* map entry holding a pointer to a struct, set with a pointer to an all-zero struct *) | KInternal
+                | KEntry (* map entry holding a pointer to a struct, set with a pointer to an all-zero struct *)
+                | KObj (* map entry set as a whole with a pointer to a struct, e.g. interfaces.<*> := &InterfaceConfig{...} *) | KInternal
                 | KAny.   (* a leaf of a plugin namespace: in a candidate (a JSON round trip of running) the
                              plugin config is an untyped map, so any value is stored as it is *)
-(* the Go value handed to Set: int, uint32, string, bool *)
-Inductive value := VInt (z : Z) | VU32 (z : Z) | VStr (s : list N) | VBool (b : bool) | VList (l : list (list N))
-                 | VPtr.   (* pointer to an all-zero struct, e.g. &protocols.BGPNetwork{} *)
 (* a stored scalar; the zero value of every kind is represented by absence *)
 Inductive sval := SInt (z : Z) | SStr (s : list N) | SBool (b : bool) | SList (l : list (list N)).
+(* the Go value handed to Set: int, uint32, string, bool *)
+Inductive value := VInt (z : Z) | VU32 (z : Z) | VStr (s : list N) | VBool (b : bool) | VList (l : list (list N))
+                 | VPtr    (* pointer to an all-zero struct, e.g. &protocols.BGPNetwork{} *)
+                 | VObj (fs : list (seg * sval)).   (* pointer to a struct: its non-zero scalar fields by json tag *)
 
 Record hspec := {
   h_pat : pattern;
@@ -60,6 +62,14 @@ Definition osval_eqb (a b : option sval) : bool :=
   match a, b with
   | None, None => true
   | Some x, Some y => sval_eqb x y
+  | _, _ => false
+  end.
+
+(* [c] is a prefix of [p] (or equal) *)
+Fixpoint is_prefix_b (c p : path) : bool :=
+  match c, p with
+  | [], _ => true
+  | x :: c', y :: p' => N.eqb x y && is_prefix_b c' p'
   | _, _ => false
   end.
 
@@ -206,7 +216,8 @@ Definition convert (k : kind) (v : value) : option (option sval) :=
 Record change := {
   c_path : path;
   c_old : option (option sval);   (* None: OldValue == nil; Some o: the typed old value *)
-  c_new : value
+  c_new : value;
+  c_same : bool                   (* reflect.DeepEqual(OldValue, NewValue), as FormatChanges evaluates it *)
 }.
 (* Configuration objects have identity: every *config.Config the manager holds (running, startup, the
    candidate of each session) is a slot (object id, contents).  deepCopyConfig allocates a fresh id; an
@@ -351,10 +362,42 @@ Definition old_value (s : store) (h : hspec) (p : path) : option (option sval) :
     end
   else None.
 
+(* a whole map entry is replaced: everything at or below [p] goes, the container [p] stays *)
+Definition clear_below (s : store) (p : path) : store :=
+  {| leaves := filter (fun e => negb (is_prefix_b p (fst e))) (leaves s);
+     conts := filter (fun c => negb (is_prefix_b p c) || path_eqb c p) (conts s) |}.
+Definition put_obj (s : store) (p : path) (fs : list (seg * sval)) : store :=
+  fold_left (fun st f => set_leaf st (p ++ [fst f]) (Some (snd f))) fs s.
+(* DeepEqual of the old entry with the new struct: the entry's subtree is exactly the new fields *)
+Definition subtree_is (s : store) (p : path) (fs : list (seg * sval)) : bool :=
+  forallb (fun f => osval_eqb (get_leaf s (p ++ [fst f])) (Some (snd f))) fs &&
+  forallb (fun e => negb (is_prefix_b p (fst e)) ||
+                    existsb (fun f => path_eqb (fst e) (p ++ [fst f])) fs) (leaves s) &&
+  forallb (fun c => negb (is_prefix_b p c) || path_eqb c p) (conts s).
+
+(* reflect.DeepEqual(OldValue, NewValue) *)
+Definition same_value (s : store) (h : hspec) (p : path) (v : value) : bool :=
+  match old_value s h p with
+  | None => false
+  | Some o =>
+    match h_kind h, v with
+    | KObj, VObj fs => subtree_is s p fs
+    | KObj, _ => false
+    | k, _ => match native_of k v with Some n => osval_eqb o n | None => false end
+    end
+  end.
+
 (* ---------- Set ---------- *)
 Definition set_store (var : variant) (s : store) (h : hspec) (p : path) (v : value) : store * bool :=
   match h_kind h with
   | KInternal => (s, true)                     (* parts[0] == "_internal": nothing stored *)
+  | KObj =>                                    (* final part is a map key: SetMapIndex(key, value) when the
+                                                  value is assignable; convertValue has no struct conversion *)
+    let s1 := add_conts s p (h_conts h) in
+    match v with
+    | VObj fs => (put_obj (clear_below s1 p) p fs, true)
+    | _ => (if v_set_atomic var then s else s1, false)
+    end
   | KAny =>                                    (* only when the namespace is present in cfg.Plugins; otherwise
                                                   the path is looked up in the core struct: "field not found" *)
     if forallb (fun n => has_cont s (firstn n p)) (h_conts h)
@@ -382,7 +425,8 @@ Definition do_set (var : variant) (reg : registry) (st0 : state) (id : N) (p : p
       if vfail then (st1, RInvalid) else
       let '(cand', ok) := set_store var (s_cand s) h p v in
       let s' := {| s_id := s_id s; s_cand := s_cand s; s_oid := s_oid s;
-                   s_changes := if ok then s_changes s ++ [{| c_path := p; c_old := old_value (s_cand s) h p; c_new := v |}]
+                   s_changes := if ok then s_changes s ++ [{| c_path := p; c_old := old_value (s_cand s) h p; c_new := v;
+                                                          c_same := same_value (s_cand s) h p v |}]
                                 else s_changes s;
                    s_idle := 0 |} in
       (* setValueInConfig writes through sess.config *)
@@ -497,14 +541,14 @@ Definition sort_changes (reg : registry) (run : store) (chs : list change) : sum
       | None => inl SEFuel
       | Some order =>
         if Nat.eqb (length order) (length chs)
-        then inr (map (fun i => nth i chs {| c_path := []; c_old := None; c_new := VBool false |}) order)
+        then inr (map (fun i => nth i chs {| c_path := []; c_old := None; c_new := VBool false; c_same := false |}) order)
         else inl SECycle
       end
     end
   end.
 
 (* ---------- the apply loop, rollbackChanges and the routing daemon ---------- *)
-Definition dflt_change : change := {| c_path := []; c_old := None; c_new := VBool false |}.
+Definition dflt_change : change := {| c_path := []; c_old := None; c_new := VBool false; c_same := false |}.
 (* the apply loop of Commit: handler lookup, ApplyWithCallbacks (k-th call fails), reload mark.
    returns (applied changes in order, outcome 0 = all applied / 1 = Apply failed / 2 = no handler, events, reload needed) *)
 Fixpoint apply_loop (reg : registry) (chs : list change) (n : nat) (kfail : nat)
@@ -539,12 +583,7 @@ Definition rollback_evs (reg : registry) (applied : list change) (kfail : nat) :
 Definition diff_class (reg : registry) (c : change) : option bool :=     (* Some true = add, Some false = modify, None = no-op *)
   match c_old c with
   | None => Some true
-  | Some o =>
-    let k := match get_handler reg (c_path c) with Some hi => h_kind (hget reg hi) | None => KInternal end in
-    match native_of k (c_new c) with
-    | Some n => if osval_eqb o n then None else Some false
-    | None => Some false
-    end
+  | Some _ => if c_same c then None else Some false
   end.
 Fixpoint diff_lines (reg : registry) (chs : list change) (want : bool) : list (bool * path) :=
   match chs with
@@ -624,12 +663,6 @@ Definition precommit_ok (g : guard) (cand : store) : bool :=
   mss_ok g cand && negb (range_bad g cand) && negb (has_dup (claims g cand)).
 
 (* ---------- what SaveYAML(scrubPersistedConfig(cfg)) leaves in the startup file ---------- *)
-Fixpoint is_prefix_b (c p : path) : bool :=
-  match c, p with
-  | [], _ => true
-  | x :: c', y :: p' => N.eqb x y && is_prefix_b c' p'
-  | _, _ => false
-  end.
 Definition hidden_path (g : guard) (p : path) : bool := existsb (fun x => existsb (N.eqb x) (g_hidden g)) p.
 Definition scrub (g : guard) (s : store) : store :=
   let dropped := filter (fun c => match get_leaf s (c ++ [g_sa g]) with Some (SBool true) => true | _ => false end) (conts s) in
@@ -822,7 +855,7 @@ Definition load_core (reg : registry) (st0 : state) (id : N) (cfg : store) (o : 
     else
       (set_sessions st (put_session (sessions st)
          {| s_id := s_id s; s_cand := cfg; s_oid := o;
-            s_changes := map (fun e => {| c_path := fst e; c_old := None; c_new := snd e |}) emitted;
+            s_changes := map (fun e => {| c_path := fst e; c_old := None; c_new := snd e; c_same := false |}) emitted;
             s_idle := 0 |}) (lock st), ROk)
   end.
 Definition bump_oid (st : state) : state :=
